@@ -125,6 +125,15 @@ CHECKS = {
             'uncatalogued ones are named in the evidence (code_sources / dynamic_actions writes, members, event trigger writes). Engine RPC '
             'client is a recorder; keystone off; sqlite.',
             'TLA+ guard model + request traces through the real WSGI app judged by TLC', '6.6'),
+    'C14': ('dsl', 'exploration',
+            'DslValidation.tla: the validation pipeline as a state machine whose only terminal states are Accepted and Rejected(definition '
+            'error), over an input space of base documents (covering the DSL features) with up to two structure-aware mutations (node x '
+            'kind); TLC enumerates the single-mutation space, the harness concretises every descriptor (and sampled doubles) to YAML, submits '
+            'it to the real parser entry points, re-instantiates accepted definitions from their stored dict and cuts workbook members out '
+            'with the real slicing code; TLC judges each recorded outcome (Total, InTime, StableWhenAccepted, WorkbookMemberIsWhatWasWritten).',
+            'TLA+ is generator and class oracle only (it does not parse YAML); which documents are valid is not specified. Exploration '
+            'level: the mutation space of 5 base documents x 12 kinds, not all texts.',
+            'TLA+-enumerated structure-aware mutation space, outcomes judged by TLC', '6.8'),
 }
 
 NOT_YET = 'check not built yet (build in progress; see DESIGN.md section 12)'
